@@ -10,6 +10,7 @@ CONSTANTS Proc <- MCProc
           TSet = {2}
           LaneSet = {1}
           MaxClock = 0
+          TagSet = {}
           GetKinds = {"Get", "GetNoWait"}
 INVARIANTS TypeOK WaitingImpliesEmpty
 PROPERTIES NoLostWakeup
